@@ -229,17 +229,15 @@ func TestC10(t *testing.T) {
 								tam := append([]byte{}, traw...)
 								tam[off] |= flag
 								o := n.Inject(tam, src, firstBR(n, src, p))
-								// the AS owning hop h: the one whose interface ifID the path uses
-								wantAS := -1
+								// the AS owning hop h (by position on the walked path) and whether the path really uses ifID there
+								wantAS := asSeq[c04HopOwner(traw, tlay)[h]]
+								used := false
 								for _, c := range base.Crossings {
-									if c.FromIf == ifID {
-										wantAS = c.From
-									}
-									if c.ToIf == ifID {
-										wantAS = c.To
+									if (c.From == wantAS && c.FromIf == ifID) || (c.To == wantAS && c.ToIf == ifID) {
+										used = true
 									}
 								}
-								if wantAS < 0 {
+								if !used {
 									continue // interface of a cut shortcut hop field, not traversed
 								}
 								judge(n, tp, fmt.Sprintf("traceroute:%s|hop=%d|flag=%d", pkey, h, flag), o, src, wantAS, 131, 40001, func(b []byte) string {
